@@ -21,7 +21,15 @@ RULE = ("profile objects are generated classes whose methods are decorated with 
         "directions (+y, -y, +x, -x) is the longest reach, also exact ties, mostly with anisotropic scales; angles at quarter turns and Pythagorean "
         "(3-4-5, 5-12-13, 8-15-17) directions, remove_projected_centre both ways, radial minima {absent, -1, 0, 1/4 .. 5} with "
         "coordinates on a 1/16 lattice around the centre including exactly at the centre (known finding) and exactly at radius = "
-        "minimum. Non-trivial = at least 2 coordinates reach the function; distinct = distinct JSON input.")
+        "minimum. Phase 2: every grid also natively stored (store_native=True from slim / full arrays with arbitrary masked entries, "
+        ".native; native Grid2D through makers and project_grid) and derived (copy, deepcopy, g[:], g+0.0, 1.0*g, -(-g), g+c, with_new_array, "
+        ".slim/.native round trips, ndarray views / Fortran order / strided views), integer dtype, full-mantissa coordinates; every call is wrapped "
+        "in a fingerprint of the caller's grid (array bytes, dtype, shape, mask object/bytes/scales/origin) and of the profile's centre/angle; "
+        "histories of 1-4 calls on living grid and profile objects (repeated call, other decorator / function / profile instance, second grid of "
+        "the same kind and mask on the same profile instance) with the user's in-place edits grid[k] = p / grid[k, c] = v between calls and returned "
+        "grids fed back as inputs, each call compared with model and specification on the contents current at that moment plus the array read "
+        "back after the call; whole histories scaled to units 2^-40, 2^-27, 2^34 (tolerance 1e-9 * unit). "
+        "Non-trivial = at least 2 coordinates reach the function (histories: always); distinct = distinct JSON input.")
 EXHAUSTIVE = {}
 TRUSTED = ["hand-written Gallina model coq/Model/C17.v, tied to /repo by this correspondence run: both the grid the user function "
            "received and the returned container are compared inside Coq (vm_compute) with tolerance 1e-9 (sqrt / trig are inexact)",
@@ -287,6 +295,7 @@ def fingerprint(obj):
     """everything a decorated call must leave as it was"""
     a = obj.array if hasattr(obj, "array") else obj
     fp = [type(obj).__name__, type(a).__name__, str(a.dtype), tuple(a.shape), np.array(a, copy=True).tobytes()]
+    fp.append(getattr(obj, "_is_transformed", None) if not isinstance(obj, np.ndarray) else None)
     m = getattr(obj, "mask", None)
     if m is not None and not isinstance(obj, np.ndarray):
         fp += [id(m), np.array(m).tobytes(), tuple(m.shape), tuple(float(v) for v in m.pixel_scales), tuple(float(v) for v in m.origin)]
@@ -509,7 +518,7 @@ def do_call(aa, ci, grid, sh, pool=None):
     after = fingerprint(grid)
     if before != after:
         py_ok = False
-        what = [n for n, a, b in zip(("type", "array type", "dtype", "shape", "array content", "mask object", "mask content", "mask shape",
+        what = [n for n, a, b in zip(("type", "array type", "dtype", "shape", "array content", "_is_transformed", "mask object", "mask content", "mask shape",
                                       "pixel scales", "origin"), before, after) if a != b]
         notes.append("the decorated call changed the caller's grid in place: " + ", ".join(what))
     if attrs != (getattr(obj, "centre", "absent"), getattr(obj, "angle", "absent")):
@@ -529,6 +538,12 @@ def do_call(aa, ci, grid, sh, pool=None):
                 py_ok = False; notes.append(f"function received a {type(obj.seen_obj).__name__} for a {type(grid).__name__} input")
             elif k != "irr" and obj.seen_obj.mask is not grid.mask:
                 py_ok = False; notes.append("function received a grid on a different mask object")
+        for x in (r[1] if isinstance(r[1], list) else [r[1]]):
+            # "one entry per unmasked pixel in slim order": the container itself, not only its .slim view
+            if type(x).__name__ in ("Array2D", "Grid2D", "VectorYX2D", "Array1D") and hasattr(x, "mask"):
+                want = (int(x.mask.pixels_in_mask),) + ((2,) if type(x).__name__ in ("Grid2D", "VectorYX2D") else ())
+                if tuple(x.array.shape) != want:
+                    py_ok = False; notes.append(f"returned {type(x).__name__} stores an array of shape {tuple(x.array.shape)}, not one entry per unmasked pixel {want}")
         if op == "stack" and obj.tf_calls != 1: py_ok = False; notes.append(f"grid transformed {obj.tf_calls} times")
         if obj.calls != 1: py_ok = False; notes.append(f"user function called {obj.calls} times")
     else:
